@@ -51,9 +51,10 @@ def caps : Proc.Caps :=
     maxStdin := 1048576, maxCapture := 1048576, defaultTimeout := 900000, maxTimeout := 3600000,
     waitPoll := 10 }
 
-/-- The implementation configuration: dynamic lookup, no plan, panics represented, process denied. -/
+/-- The implementation configuration: dynamic lookup, no plan, the current code (`panics := false`),
+process denied. -/
 def cfg : RunCfg :=
-  { lookup := .dynamic, plan := none, panics := true, policy := { allow := false, caps := caps },
+  { lookup := .dynamic, plan := none, panics := false, policy := { allow := false, caps := caps },
     runProc := fun _ => .error .processUnsupported,
     std := { trim := id, upper := id, lower := id }, input := [] }
 
